@@ -90,4 +90,77 @@ theorem stale_saved_repaired :
       [.done (.ok (.text "2")) 2] := by
   decide
 
+/-- **(iii) a diagnostic answer mixes two versions**: `generate_diagnostics` fetches the parsed
+    document itself and then lets the semantic analysis fetch it again; a didChange that completes
+    between the two (forced at `parsed.unlocked`: the request has seen an empty record, the change
+    installs `"3"`, the request parses the file `"1"`, then finds `"3"` opened) gives a report whose
+    syntax / tree-level items come from `"1"` and whose annotated-tree items come from `"3"`. -/
+theorem mixed_versions_visible : ¬ Linearizable Cfg.current := by
+  intro h
+  have := (h disk1 [.change D "3"] [(.diag, D)] [0, 1, 1, 0, 1, 1, 1, 1, 1, 1, 1, 1, 1, 1, 1, 1]).1
+    0 ⟨.diag, D, .done (.mixed "1" "3") 1, 0, some 1⟩ (.mixed "1" "3") 1 (by decide) rfl
+  rw [good_iff] at this
+  revert this
+  decide
+
+/-- **(iv) a request that overlapped a change leaves a stale symbol table behind**: a definition
+    request fetched the document before `didChange "2"`; it annotates the old document after the
+    change has returned and stores the root table of the OLD text in the record
+    (`annotate_doc`: `doc_info.write().set_symbol_table(..)`, unconditionally).  A hierarchy query
+    received after everything has finished is answered from `"1"` although the document has been
+    `"2"` since before its receipt. -/
+theorem stale_table_visible : ¬ Linearizable Cfg.current := by
+  intro h
+  have := (h disk1 [.change D "2"] [(.analysis true, D), (.table .no, D)]
+    [1, 1, 1, 1,  0, 0,  1, 1, 1, 1, 1, 1, 1, 1,  2, 2, 2]).1
+    1 ⟨.table .no, D, .done (.ok (.tab [(D, "1")])) 1, 1, none⟩ (.ok (.tab [(D, "1")])) 1 (by decide) rfl
+  rw [good_iff] at this
+  revert this
+  decide
+
+/-- the precondition of the deadlock recorded as `C01:hang-concurrent-analysis-same-document` is
+    reachable: two requests walk (fill) two annotated trees of the SAME document object at the same
+    time, the second one having replaced the first one's tree in the document.  (The deadlock itself
+    needs the node locks inside the walk, which are below the cut points of this model.) -/
+theorem double_annotation_reachable :
+    ((run Cfg.current (init disk1 [] [(.diag, D), (.diag, D)])
+      [1, 1, 1, 1, 1,  2, 2, 2, 2,  1, 1, 1, 1,  2, 2, 2, 2]).ths.map (·.pc)) =
+      [.fill 0 0 true, .fill 0 1 false] := by
+  decide
+
+/-! ## the partial theorem -/
+
+/-- **C03 under the two guards** — evaluated on the model's own states along the schedule
+    (`runG … = some s` says the schedule passes them):
+    * `quiet`: while a thread owns a published, not yet filled annotation, no other analysing
+      request about the same document is in flight ("no two requests overlap on a document that is
+      being annotated");
+    * `stepOk`: notifications about a document do not overlap analysing requests about it
+      (documentSymbol requests may overlap anything).
+    Then every request of every kind is well answered, and no thread has taken an annotation in
+    status `published` for a cache hit or computed an answer from one. -/
+theorem linearizable_partial (disk : Doc.Path → Doc.Text) (ops : List Op) (reqs : Reqs) (sched : List Tid) (s : St)
+    (hr : runG Cfg.current (init disk ops reqs) sched = some s) :
+    s = run Cfg.current (init disk ops reqs) sched ∧ AllGood s ∧ s.badReads = 0 := by
+  refine ⟨runG_eq_run _ _ hr, ?_⟩
+  rw [current_change_atomic] at hr
+  obtain ⟨_, hg⟩ := ginv_runG (inv_init disk ops reqs) (ginv_init disk ops reqs) (quiet_init disk ops reqs) sched hr
+  exact ⟨hg.doneOk, hg.bad⟩
+
+def E : Doc.Path := "E"
+
+/-- non-vacuity: a guarded schedule with real overlap — a definition request about `D` and a
+    hierarchy query about `E` annotate their documents step by step in alternation, a
+    documentSymbol request about `D` runs in the middle of `didChange D "2"`, a second definition
+    request about `D` starts when the first one has finished and is served from the cache —
+    passes both guards, and every answer is the expected one -/
+example :
+    (runG Cfg.current (init disk1 [.change E "2", .change D "2"]
+        [(.analysis true, D), (.table .around, E), (.symbols, D), (.analysis true, D)])
+      [0, 0,  1, 2, 1, 2, 1, 2, 1, 2, 1, 2, 1, 2, 1, 2, 1, 2, 1, 2, 1, 2, 1, 2, 1, 2, 2,  4, 4, 4, 4, 4,  0, 3, 3, 0]).map
+      (fun s => s.ths.map (·.pc)) =
+    some [.done (.ok (.tab [(D, "1")])) 0, .done (.ok (.tab [(E, "2")])) 1, .done (.ok (.text "1")) 1,
+          .done (.ok (.tab [(D, "1")])) 0] := by
+  decide
+
 end Gold.C03
